@@ -20,6 +20,7 @@ import (
 	"os"
 	"sort"
 	"strings"
+	"unicode/utf8"
 
 	"cuelabs.dev/go/oci/ociregistry"
 	"cuelabs.dev/go/oci/ociregistry/ociserver"
@@ -39,6 +40,17 @@ type ReqSpec struct {
 	CLen     int64  `json:"content_length"`
 	Body     []byte `json:"body,omitempty"`
 	Raw      []byte `json:"raw,omitempty"` // when set: the request is http.ReadRequest of this text
+	// the exact bytes of Path / RawQuery when they are not valid UTF-8 (a JSON string cannot carry them)
+	PathRaw  []byte `json:"path_raw,omitempty"`
+	QueryRaw []byte `json:"raw_query_raw,omitempty"`
+}
+
+// exactBytes returns s as bytes when a JSON string would not round-trip it.
+func exactBytes(s string) []byte {
+	if utf8.ValidString(s) {
+		return nil
+	}
+	return []byte(s)
 }
 
 type LocsSpec struct {
@@ -356,6 +368,8 @@ type ParseCase struct {
 	Path     string `json:"path"`
 	RawQuery string `json:"raw_query"`
 	Obs      any    `json:"observed,omitempty"`
+	PathRaw  []byte `json:"path_raw,omitempty"`
+	QueryRaw []byte `json:"raw_query_raw,omitempty"`
 }
 
 func runParse(p *ParseCase) string {
@@ -435,6 +449,7 @@ func main() {
 			out.Count("serve:rejected-by-net/http")
 			return
 		}
+		c.Req.PathRaw, c.Req.QueryRaw = exactBytes(c.Req.Path), exactBytes(c.Req.RawQuery)
 		ill := illScript(c)
 		tags := map[string]any{"class": c.class(), "ill_backend": ill}
 		if out.Add(hx.Case{Coq: c.coq(), Desc: c, Tags: tags}) {
@@ -453,6 +468,7 @@ func main() {
 	}
 	addParse := func(p *ParseCase, origin string) {
 		p.Kind = "parse"
+		p.PathRaw, p.QueryRaw = exactBytes(p.Path), exactBytes(p.RawQuery)
 		coq := runParse(p)
 		cl := "parse/err"
 		if strings.Contains(coq, "PGood") {
@@ -492,6 +508,12 @@ func main() {
 		case "serve":
 			var c ServeCase
 			if json.Unmarshal(raw, &c) == nil {
+				if c.Req.PathRaw != nil {
+					c.Req.Path = string(c.Req.PathRaw)
+				}
+				if c.Req.QueryRaw != nil {
+					c.Req.RawQuery = string(c.Req.QueryRaw)
+				}
 				script := c.Script
 				if script == nil {
 					script = []ResSpec{}
@@ -501,6 +523,12 @@ func main() {
 		case "parse":
 			var p ParseCase
 			if json.Unmarshal(raw, &p) == nil {
+				if p.PathRaw != nil {
+					p.Path = string(p.PathRaw)
+				}
+				if p.QueryRaw != nil {
+					p.RawQuery = string(p.QueryRaw)
+				}
 				addParse(&p, origin)
 			}
 		case "range":
@@ -709,6 +737,51 @@ func generate(cfg *hx.Config, rnd *rand.Rand,
 			addServe(c, newSource(0, false), "each-kind")
 		}
 	}
+	// 1b. every boundary value of the list query, Range and Content-Range vocabularies against
+	// a backend that agrees (a non-empty listing without an error, a blob of 20 bytes, a writer
+	// that takes the chunk), under the option sets that matter for the handler
+	listing := []string{"a", "b", "c", "d", "e"}
+	for _, q := range listQueries {
+		for _, path := range []string{"/v2/foo/tags/list", "/v2/_catalog"} {
+			for _, o := range []OptSpec{{}, {OmitLink: true}, {MaxList: 3}, {MaxList: 1000, OmitLink: true}} {
+				c := &ServeCase{Req: ReqSpec{Method: "GET", Path: path, RawQuery: q}, Opts: o}
+				addServe(c, &source{replay: []ResSpec{{Kind: "list", Items: listing}}}, "boundary-grid")
+			}
+		}
+	}
+	blob20 := []byte("0123456789abcdefghij")
+	for _, rg := range rangeHeaders {
+		for _, o := range []OptSpec{{}, {Locs: &LocsSpec{Locs: []string{}}}} {
+			c := &ServeCase{Req: ReqSpec{Method: "GET", Path: "/v2/foo/blobs/" + digestOf(blob20), Range: rg}, Opts: o}
+			d := DescSpec{Media: "application/octet-stream", Digest: digestOf(blob20), Size: 20}
+			script := []ResSpec{{Kind: "read", Desc: &d, Data: blob20}}
+			if o.Locs != nil {
+				script = append([]ResSpec{{Kind: "desc", Desc: &d}}, script...)
+			}
+			addServe(c, &source{replay: script}, "boundary-grid")
+		}
+	}
+	for _, cr := range contentRanges {
+		for _, body := range [][]byte{nil, []byte("x"), []byte("hello")} {
+			for _, clen := range []int64{int64(len(body)), -1} {
+				for _, put := range []bool{false, true} {
+					c := &ServeCase{Req: ReqSpec{Method: "PATCH", Path: "/v2/foo/blobs/uploads/" + b64("id1"), CRange: cr, CLen: clen, Body: body}}
+					d := DescSpec{Media: "application/octet-stream", Digest: digestOf(body), Size: int64(len(body))}
+					script := []ResSpec{{Kind: "writer", W: 1}}
+					if len(body) > 0 {
+						script = append(script, ResSpec{Kind: "n", N: int64(len(body))})
+					}
+					if put {
+						c.Req.Method, c.Req.RawQuery = "PUT", "digest="+digestOf(body)
+						script = append(script, ResSpec{Kind: "desc", Desc: &d}, ResSpec{Kind: "unit"})
+					} else {
+						script = append(script, ResSpec{Kind: "unit"}, ResSpec{Kind: "str", Str: "id1"}, ResSpec{Kind: "n", N: 40 + int64(len(body))})
+					}
+					addServe(c, &source{replay: script}, "boundary-grid")
+				}
+			}
+		}
+	}
 	// 2. grammar-directed, mutated and random request lines
 	for i := 0; i < nServe; i++ {
 		kind := rnd.Intn(17)
@@ -767,6 +840,105 @@ func generate(cfg *hx.Config, rnd *rand.Rand,
 			addParse(&ParseCase{Method: m, Path: "/v2/Foo/tags/list", RawQuery: q}, "grid")
 		}
 	}
+	// 3b. character classes of the validators: every byte value (and non-ASCII letters / digits in
+	// UTF-8) at every kind of position of a repository, tag and digest, through the routes that
+	// carry the name in the path and in the query
+	mods := []string{"GET", "HEAD", "PUT", "DELETE"}
+	variants := func(ws []sweepWord, f func(v string, k int)) {
+		k := 0
+		for _, w := range ws {
+			for _, i := range w.pos {
+				for b := 0; b < 256; b++ {
+					f(withByte(w.word, i, byte(b)), k)
+					k++
+				}
+				for _, u := range utf8Splices {
+					for _, v := range spliced(w.word, i, u) {
+						f(v, k)
+						k++
+					}
+				}
+			}
+		}
+	}
+	okDigest := digestOf([]byte("x"))
+	variants(tagSweep, func(v string, k int) {
+		addParse(&ParseCase{Method: mods[k%4], Path: "/v2/foo/manifests/" + v}, "class-sweep:tag")
+	})
+	variants(repoSweep, func(v string, k int) {
+		switch k % 6 {
+		case 0:
+			addParse(&ParseCase{Method: "GET", Path: "/v2/" + v + "/tags/list"}, "class-sweep:repo")
+		case 1:
+			addParse(&ParseCase{Method: mods[(k/6)%4], Path: "/v2/" + v + "/manifests/latest"}, "class-sweep:repo")
+		case 2:
+			addParse(&ParseCase{Method: []string{"GET", "HEAD", "DELETE"}[(k/6)%3], Path: "/v2/" + v + "/blobs/" + okDigest}, "class-sweep:repo")
+		case 3:
+			addParse(&ParseCase{Method: "POST", Path: "/v2/" + v + "/blobs/uploads/"}, "class-sweep:repo")
+		case 4:
+			addParse(&ParseCase{Method: []string{"GET", "PATCH"}[(k/6)%2], Path: "/v2/" + v + "/blobs/uploads/" + b64("id1")}, "class-sweep:repo")
+		default:
+			addParse(&ParseCase{Method: "POST", Path: "/v2/foo/blobs/uploads/", RawQuery: "mount=" + okDigest + "&from=" + url.QueryEscape(v)}, "class-sweep:repo")
+		}
+	})
+	variants(digestSweep(), func(v string, k int) {
+		switch k % 6 {
+		case 0:
+			addParse(&ParseCase{Method: []string{"GET", "HEAD", "DELETE"}[(k/6)%3], Path: "/v2/foo/blobs/" + v}, "class-sweep:digest")
+		case 1:
+			addParse(&ParseCase{Method: mods[(k/6)%4], Path: "/v2/foo/manifests/" + v}, "class-sweep:digest")
+		case 2:
+			addParse(&ParseCase{Method: "GET", Path: "/v2/foo/referrers/" + v}, "class-sweep:digest")
+		case 3:
+			addParse(&ParseCase{Method: "PUT", Path: "/v2/foo/blobs/uploads/" + b64("id1"), RawQuery: "digest=" + url.QueryEscape(v)}, "class-sweep:digest")
+		case 4:
+			addParse(&ParseCase{Method: "POST", Path: "/v2/foo/blobs/uploads/", RawQuery: "digest=" + url.QueryEscape(v)}, "class-sweep:digest")
+		default:
+			addParse(&ParseCase{Method: "POST", Path: "/v2/foo/blobs/uploads/", RawQuery: "mount=" + url.QueryEscape(v) + "&from=bar"}, "class-sweep:digest")
+		}
+	})
+	// ... and through the server, so that what reaches the backend is seen: one position per word
+	serveSweep := func(ws []sweepWord, line func(v string, k int) (string, string, string, int)) {
+		for b := 0; b < 256; b++ {
+			w := ws[rnd.Intn(len(ws))]
+			i := w.pos[rnd.Intn(len(w.pos))]
+			m, p, q, kind := line(withByte(w.word, i, byte(b)), b)
+			serve(m, p, q, kind, "class-sweep")
+		}
+		for k, u := range utf8Splices {
+			w := ws[rnd.Intn(len(ws))]
+			i := w.pos[rnd.Intn(len(w.pos))]
+			for _, v := range spliced(w.word, i, u) {
+				m, p, q, kind := line(v, k)
+				serve(m, p, q, kind, "class-sweep")
+			}
+		}
+	}
+	serveSweep(tagSweep, func(v string, k int) (string, string, string, int) {
+		return mods[k%4], "/v2/foo/manifests/" + v, "", 10 + k%4
+	})
+	serveSweep(repoSweep, func(v string, k int) (string, string, string, int) {
+		switch k % 4 {
+		case 0:
+			return "GET", "/v2/" + v + "/tags/list", "", 14
+		case 1:
+			return "POST", "/v2/foo/blobs/uploads/", "mount=" + okDigest + "&from=" + url.QueryEscape(v), 6
+		case 2:
+			return "PATCH", "/v2/" + v + "/blobs/uploads/" + b64("id1"), "", 8
+		}
+		return "HEAD", "/v2/" + v + "/blobs/" + okDigest, "", 2
+	})
+	serveSweep(digestSweep(), func(v string, k int) (string, string, string, int) {
+		switch k % 4 {
+		case 0:
+			return "GET", "/v2/foo/blobs/" + v, "", 1
+		case 1:
+			return "DELETE", "/v2/foo/manifests/" + v, "", 13
+		case 2:
+			return "PUT", "/v2/foo/blobs/uploads/" + b64("id1"), "digest=" + url.QueryEscape(v), 9
+		}
+		return "POST", "/v2/foo/blobs/uploads/", "mount=" + url.QueryEscape(v) + "&from=bar", 6
+	})
 	for i := 0; i < nParse; i++ {
 		kind := rnd.Intn(17)
 		m, p, q := grammarRequest(rnd, kind, 20)
